@@ -273,7 +273,7 @@ static int cmd_shrink(int argc, char **argv) {
         for (size_t i = p.cbs.size(); i-- > 0 && g_tests < max_tests;) { Plan q = p; q.cbs.erase(q.cbs.begin() + (long) i); if (still_fails(q)) { p = q; progress = true; } }
         {
             std::vector<std::string> keys; for (auto &kv : p.cfg.kv) keys.push_back(kv.first);
-            for (auto &k : keys) { if (g_tests >= max_tests) break; if (k == "wellformed" || k == "skeleton" || k == "scn" || k.compare(0, 4, "c16_") == 0 || k.compare(0, 4, "c11_") == 0 || k.compare(0, 4, "c07_") == 0 || k.compare(0, 4, "c14_") == 0 || k.compare(0, 4, "c08_") == 0 || k.compare(0, 4, "c10_") == 0 || k == "auto_destroy" || k == "disposal" || k == "res_decomp" || k == "req_decomp" || k == "clock_step") continue; Plan q = p; q.cfg.kv.erase(k); if (still_fails(q)) { p = q; progress = true; } }
+            for (auto &k : keys) { if (g_tests >= max_tests) break; if (k == "wellformed" || k == "skeleton" || k == "scn" || k.compare(0, 4, "c16_") == 0 || k.compare(0, 4, "c11_") == 0 || k.compare(0, 4, "c07_") == 0 || k.compare(0, 4, "c14_") == 0 || k.compare(0, 4, "c08_") == 0 || k.compare(0, 4, "c10_") == 0 || k == "auto_destroy" || k == "disposal" || k == "res_decomp" || k == "req_decomp" || (k == "log_level" && p.prop == "C10") || k == "clock_step") continue; Plan q = p; q.cfg.kv.erase(k); if (still_fails(q)) { p = q; progress = true; } }
         }
         // 5. drop unused tail bytes of the streams, then try shortening from the end
         for (size_t c = 0; !domain && c < p.conns.size(); c++) for (int d = 0; d < 2; d++) {
